@@ -47,9 +47,11 @@ type Scenario struct {
 	TolUs      int64  `json:"tol_us"`
 	TickUs     int64  `json:"tick_us"`
 	Items      []Item `json:"items"`
+	CtoUs      int64  `json:"cto_us"`     // small explicit export timeout of a gRPC exporter (bounds the whole call), 0 = none
 	StopBefore string `json:"stopBefore"` // "cancel": context cancelled before the call
 	SdCtx      string `json:"sdctx"`      // context handed to Shutdown: "bg" | "expired"
-	Compress   bool   `json:"compress"`
+	X          XCfg   `json:"xcfg"`       // exporter options the contract must not depend on
+	Grp        int    `json:"grp"`        // scenarios of one group differ in X only (0 = no group)
 	Want       Want   `json:"want"`
 }
 
@@ -65,7 +67,7 @@ type scenarioRun struct {
 	cancel  context.CancelFunc
 	exp     driven
 	stopped bool
-	holdCap time.Duration
+	hdr     map[string]string // configured headers that must arrive with every attempt
 	notes   []string
 	late    int
 	sdDone  chan struct{}
@@ -105,7 +107,7 @@ func (s *scenarioRun) note(msg string) {
 }
 
 // arrive logs the arrival of an attempt and returns its number and what to serve.
-func (s *scenarioRun) arrive(hash string, size int) (int, Item) {
+func (s *scenarioRun) arrive(hash string, size int, hdr int, enc string) (int, Item) {
 	s.mu.Lock()
 	defer s.mu.Unlock()
 	s.n++
@@ -124,7 +126,7 @@ func (s *scenarioRun) arrive(hash string, size int) (int, Item) {
 		s.late++
 		return n, it
 	}
-	s.emitAt("Attempt", s.reg.ceilUs(), map[string]any{"n": n, "hash": hash, "size": size})
+	s.emitAt("Attempt", s.reg.ceilUs(), map[string]any{"n": n, "hash": hash, "size": size, "hdr": hdr, "enc": enc})
 	return n, it
 }
 
@@ -170,6 +172,15 @@ func (s *scenarioRun) release(stopKind string) time.Duration {
 	return tol + 2*time.Second
 }
 
+// hungCap: how long an unanswered request waits for the client's timeout before it is answered after all.
+func (s *scenarioRun) hungCap() time.Duration {
+	to := s.sc.AttoUs
+	if s.sc.CtoUs > to {
+		to = s.sc.CtoUs
+	}
+	return time.Duration(to+s.sc.TolUs)*time.Microsecond + 1500*time.Millisecond
+}
+
 // after is called once a response has been handed to the transport.
 func (s *scenarioRun) after(n int, it Item) {
 	if it.StopAfter == "" {
@@ -192,8 +203,8 @@ var (
 
 type runner struct {
 	reg       *registry
-	httpAddr  string
-	grpcAddr  string
+	hc        *httpCollector
+	gc        *grpcCollector
 	tw        *vh.TraceWriter
 	res       *vh.Result
 	twMu      sync.Mutex
@@ -212,7 +223,7 @@ func (r *runner) Handle(err error) {
 		atomic.AddInt64(&r.otherErrs, 1)
 		return
 	}
-	if s := r.reg.get(m[1]); s != nil {
+	if s := r.reg.get("sc" + m[1]); s != nil {
 		n, _ := strconv.Atoi(m[2])
 		s.emit("Handled", false, map[string]any{"n": n})
 	}
@@ -226,17 +237,38 @@ func orDefault(v, d int64) int64 {
 }
 
 func (r *runner) runScenario(sc Scenario) {
-	s := &scenarioRun{sc: sc, reg: r.reg, holdCap: 12 * time.Second, sdDone: make(chan struct{})}
+	s := &scenarioRun{sc: sc, reg: r.reg, sdDone: make(chan struct{}), hdr: headersFor(sc.ID, sc.X.Headers)}
 	idStr := strconv.Itoa(sc.ID)
 	rc := retryCfg{
 		Enabled: sc.Enabled, Initial: time.Duration(sc.InitialUs) * time.Microsecond, MaxInt: time.Duration(sc.MaxIntUs) * time.Microsecond,
-		MaxEl: time.Duration(sc.MaxElUs) * time.Microsecond, Timeout: 30 * time.Second, Compress: sc.Compress,
+		MaxEl: time.Duration(sc.MaxElUs) * time.Microsecond,
 	}
-	if sc.AttoUs > 0 {
-		rc.Timeout = time.Duration(sc.AttoUs) * time.Microsecond
+	// timeout: the scenario's small explicit one (per attempt for HTTP, whole call for gRPC), else an explicit
+	// generous one, else none (the exporter's 10 s default)
+	var timeout time.Duration
+	switch {
+	case sc.AttoUs > 0:
+		timeout = time.Duration(sc.AttoUs) * time.Microsecond
+	case sc.CtoUs > 0:
+		timeout = time.Duration(sc.CtoUs) * time.Microsecond
+	case sc.X.Timeout == "explicit":
+		timeout = 30 * time.Second
 	}
-	exp, err := newDriven(sc.Exp, sc.ID, r.httpAddr, r.grpcAddr, map[string]string{"x-verif-sc": idStr}, rc)
+	var addr string
+	var closeLn func()
+	var err error
+	if protoOf(sc.Exp) == "http" {
+		addr, closeLn, err = r.hc.listen(s)
+	} else {
+		addr, closeLn, err = r.gc.listen(s)
+	}
 	if err != nil {
+		r.res.Inconcl(fmt.Sprintf("scenario %d: cannot listen: %v", sc.ID, err))
+		return
+	}
+	exp, err := newDriven(sc.Exp, sc.ID, addr, sc.X, s.hdr, timeout, rc)
+	if err != nil {
+		closeLn()
 		r.res.Inconcl(fmt.Sprintf("scenario %d: cannot build exporter %s: %v", sc.ID, sc.Exp, err))
 		return
 	}
@@ -249,10 +281,21 @@ func (r *runner) runScenario(sc Scenario) {
 			GotFirstResponseByte: func() { s.emit("Got", false, nil) },
 		})
 	}
-	r.reg.put(idStr, s)
+	r.reg.put("sc"+idStr, s)
+	enc := "none"
+	if sc.X.Gzip {
+		enc = "gzip"
+	}
+	atto, cto := sc.AttoUs, sc.CtoUs
+	if protoOf(sc.Exp) == "grpc" {
+		atto = 0
+	} else {
+		cto = 0
+	}
 	s.emit("Cfg", false, map[string]any{
 		"proto": protoOf(sc.Exp), "signal": signalOf(sc.Exp), "exp": sc.Exp, "name": sc.Name, "src": sc.Src, "enabled": sc.Enabled,
-		"initial": sc.InitialUs, "maxint": sc.MaxIntUs, "maxel": sc.MaxElUs, "atto": sc.AttoUs, "tol": sc.TolUs, "tick": sc.TickUs,
+		"initial": sc.InitialUs, "maxint": sc.MaxIntUs, "maxel": sc.MaxElUs, "atto": atto, "cto": cto, "tol": sc.TolUs, "tick": sc.TickUs,
+		"nhdr": sc.X.Headers, "enc": enc, "env": sc.X.Env, "tmo": sc.X.Timeout, "grp": sc.Grp,
 		"want": map[string]any{"valid": sc.Want.Valid, "attempts": sc.Want.Attempts, "err": sc.Want.Err, "handled": sc.Want.Handled, "clock": sc.Want.Clock},
 	})
 	if sc.StopBefore == "cancel" {
@@ -313,7 +356,8 @@ func (r *runner) runScenario(sc Scenario) {
 		defer cc()
 		_ = exp.Shutdown(c)
 		time.Sleep(50 * time.Millisecond)
-		r.reg.del(idStr)
+		r.reg.del("sc" + idStr)
+		closeLn()
 	}()
 	r.twMu.Lock()
 	for _, e := range evs {
@@ -324,6 +368,14 @@ func (r *runner) runScenario(sc Scenario) {
 	r.res.Count("exp_"+sc.Exp, 1)
 	r.res.Count("src_"+sc.Src, 1)
 	r.res.Count("attempts", int64(attempts))
+	r.res.Count(fmt.Sprintf("xcfg_headers%d", sc.X.Headers), 1)
+	if sc.X.Gzip {
+		r.res.Count("xcfg_gzip", 1)
+	}
+	if sc.X.Env {
+		r.res.Count("xcfg_env", 1)
+	}
+	r.res.Count("xcfg_timeout_"+sc.X.Timeout, 1)
 	if attempts > len(sc.Items) {
 		r.res.Count("attempts_beyond_script", int64(attempts-len(sc.Items)))
 	}
@@ -400,7 +452,7 @@ func main() {
 	}
 	tw, err := vh.NewTraceWriter(*out)
 	vh.Must(err)
-	r := &runner{reg: reg, httpAddr: hc.addr, grpcAddr: gc.addr, tw: tw, res: res}
+	r := &runner{reg: reg, hc: hc, gc: gc, tw: tw, res: res}
 	otel.SetErrorHandler(otel.ErrorHandlerFunc(r.Handle))
 
 	var scs []Scenario
